@@ -20,6 +20,7 @@ type c08Case struct {
 	Cmd    string   `json:"cmd"` // update | format | compare | compare-github
 	Orders [][]int  `json:"orders"`
 	Leak   string   `json:"leak,omitempty"` // "", stash, definition, flags
+	Pad    int      `json:"pad,omitempty"`  // 1, 2: chain offsets in file names are written with leading zeros; 3: offset 0 is written as -chain0
 }
 
 var reCompareBlock = regexp.MustCompile(`(?m)^Regex of (\d{6}) has (not changed|changed!)`)
@@ -45,7 +46,13 @@ func c08Check(env *core.Env, cc core.Case) core.Verdict {
 	defer os.RemoveAll(sandbox)
 	tree := c.Proj.tree()
 	targets := c.Proj.targets()
-	v := core.Verdict{Status: core.Held, Features: []string{"cmd:" + c.Cmd, "leak:" + c.Leak, fmt.Sprintf("files:%d", len(targets))}, Counts: map[string]int{}}
+	for _, t := range targets {
+		if sp := c.spell(t); sp != t.Key {
+			tree["regex-assembly/"+sp+".ra"] = tree["regex-assembly/"+t.Key+".ra"]
+			delete(tree, "regex-assembly/"+t.Key+".ra")
+		}
+	}
+	v := core.Verdict{Status: core.Held, Features: []string{"cmd:" + c.Cmd, "leak:" + c.Leak, fmt.Sprintf("files:%d", len(targets)), fmt.Sprintf("offset-spelling:%d", c.Pad)}, Counts: map[string]int{}}
 	mk := func(name string) (string, error) {
 		root := filepath.Join(sandbox, name, "crs")
 		_ = os.MkdirAll(filepath.Join(root, "regex-assembly", "include"), 0o755)
@@ -94,7 +101,7 @@ func c08Check(env *core.Env, cc core.Case) core.Verdict {
 	// the units a single invocation can address
 	var units []string
 	for _, t := range targets {
-		units = append(units, t.Key)
+		units = append(units, c.spell(t))
 	}
 	if c.Cmd == "format" {
 		for n := range c.Proj.Includes {
@@ -169,6 +176,17 @@ func c08Check(env *core.Env, cc core.Case) core.Verdict {
 	return v
 }
 
+// spell is the name under which the assembly file of a target is stored and addressed.
+func (c *c08Case) spell(t projTarget) string {
+	switch {
+	case c.Pad == 3 && t.K == 0:
+		return t.ID + "-chain0"
+	case (c.Pad == 1 || c.Pad == 2) && t.K > 0:
+		return fmt.Sprintf("%s-chain%0*d", t.ID, c.Pad+1, t.K)
+	}
+	return t.Key
+}
+
 func c08Gen(rng *rand.Rand, i int) *c08Case {
 	p := projGen(rng)
 	for len(p.targets()) < 2 {
@@ -212,6 +230,20 @@ func c08Gen(rng *rand.Rand, i int) *c08Case {
 		p.Includes["closer"] = "closerword\n##!<\n"
 		c.Leak += "+open-block"
 	}
+	if c.Leak == "" && i%5 == 2 {
+		// file names that spell the chain offset differently (942100-chain01.ra, 942100-chain0.ra)
+		c.Pad = 1 + (i/5)%3
+		for c.Pad < 3 {
+			has := false
+			for _, t := range p.targets() {
+				has = has || t.K > 0
+			}
+			if has {
+				break
+			}
+			c.Pad = 3
+		}
+	}
 	n := len(targets)
 	if c.Cmd == "format" {
 		n += len(p.Includes)
@@ -226,7 +258,7 @@ func init() {
 	register(&core.Property{
 		ID:    "C08",
 		Level: "exploration",
-		Rule: "generated CRS trees with 2..n assembly files (sharing stored-expression name st1 and definition name d1, different flags/prefixes/suffixes, chain offsets, include and include-except users, cmdline blocks) are copied; copy A gets update / format / compare (text and github) --all, copies B1..B3 get the same command once per file in three PRNG-chosen orders. A quarter of the trees each carry a leak construction: the last file in walk order appends a stored name that only the first file stores (must fail like the single invocation does), references a definition that only the first file makes, or follows a file with flags, prefix and suffix. " +
+		Rule: "generated CRS trees with 2..n assembly files (sharing stored-expression name st1 and definition name d1, different flags/prefixes/suffixes, chain offsets, include and include-except users, cmdline blocks) are copied; copy A gets update / format / compare (text and github) --all, copies B1..B3 get the same command once per file in three PRNG-chosen orders. A part of the trees spell chain offsets in file names with leading zeros or as -chain0. A quarter of the trees each carry a leak construction: the last file in walk order appends a stored name that only the first file stores (must fail like the single invocation does), references a definition that only the first file makes, or follows a file with flags, prefix and suffix. " +
 			"Oracle: the snapshot of A equals the snapshot of every B (for compare: the multiset of per-rule report blocks, and in github mode failure iff any single invocation fails); exit status of --all non-zero iff a single invocation fails. Non-trivial = >= 2 addressable files.",
 		Cases: func(env *core.Env, rng *rand.Rand) []core.Case {
 			n := env.N(300, 3000)
